@@ -356,7 +356,7 @@ def gen_stacks(rnd, nmax=8):
 class _Scn(object):
     PROP = PROP
     ID = 'c19.serial'
-    TIERS = {'quick': 3000, 'thorough': 200000}
+    TIERS = {'quick': 8000, 'thorough': 200000}
     nmax = 8
 
     def generate(self, sub):
@@ -547,7 +547,7 @@ def execute_pool(case, mode):
 
 class _PoolScn(_Scn):
     ID = 'c19.pool'
-    TIERS = {'quick': 800, 'thorough': 50000}
+    TIERS = {'quick': 2000, 'thorough': 50000}
 
     def generate(self, sub):
         case = _Scn.generate(self, sub)
